@@ -38,11 +38,11 @@ theorem ctr_pick {s s' : St} {o : PickOutcome} {ps ds}
   split at h
   · simp at h
   · rename_i s1 pairs ds1 h1
+    have c1 := ctr_pickCore h1
     split at h
     · simp at h
     · simp at h
-      rw [← h.1]
-      exact ctr_pickCore h1
+      rw [← h.1, ← c1]; rfl
 
 theorem ctr_restoreStreamOnce (s : St) (k : Nat) : ctr (restoreStreamOnce s k) = ctr s := by
   unfold restoreStreamOnce
@@ -61,13 +61,39 @@ theorem ctr_reissue_go : ∀ (l : List (Nat × Nat)) {s s' : St} {ps},
 
 theorem ctr_pickLock {s s' : St} {o : PickOutcome} {k : Nat} {ps ds}
     (h : pickLock s o k = .ok (s', ps, ds)) : ctr s' = ctr s := by
-  unfold pickLock reissue at h
-  grind [ctr_pick, ctr_restoreStreamOnce, ctr_reissue_go]
+  unfold pickLock at h
+  split at h
+  · rw [ctr_pick h, ctr_restoreStreamOnce]
+  · rename_i enss0 trajs0 rest hl
+    split at h
+    · simp at h
+    · rename_i s1 pairs h1
+      unfold reissue at h1
+      have c1 := ctr_reissue_go _ h1
+      split at h
+      · simp at h
+      · simp at h
+        rw [← h.1, ← (show ctr s1 = ctr s from c1)]; rfl
 
 theorem ctr_prep {s s' : St} {prev : Option Nat} {o : PickOutcome} {k : Nat} {job ds}
     (h : prep s prev o k = .ok (s', job, ds)) : ctr s' = ctr s := by
   unfold prep at h
-  grind [ctr_pick, ctr_pickLock]
+  simp only at h
+  split at h
+  · simp at h
+  · rename_i s1 ps ds1 h1
+    have c1 : ctr s1 = ctr s := by
+      split at h1
+      · exact ctr_pickLock h1
+      · exact ctr_pick h1
+    split at h
+    · simp at h
+    · split at h
+      · simp at h
+      · split at h
+        · simp at h
+        · simp at h
+          rw [← h.1, ← c1]; rfl
 
 theorem ctr_addTraj {s s' : St} {ens : Int} {pn : Nat} {v : List Rat}
     (h : addTraj s ens pn v = .ok s') : ctr s' = ctr s := by
@@ -81,7 +107,7 @@ theorem ctr_addTraj {s s' : St} {ens : Int} {pn : Nat} {v : List Rat}
       · simp at h
       · split at h
         · simp at h
-        · exact ctr_unlock h
+        · exact (ctr_unlock h).trans rfl
 
 theorem ctr_sortStep {s s' : St} (h : sortStep s = .ok (some s')) : ctr s' = ctr s := by
   unfold sortStep at h
@@ -149,27 +175,29 @@ theorem ctr_treatOutput {s s' : St} {job : Job} {status : Status} {newW} {fuel :
     (h : treatOutput s job status newW fuel = .ok (s', pns, k)) : ctr s' = ctr s := by
   unfold treatOutput at h
   simp only at h
+  generalize (if status = Status.acc then newW else job.picked.map (fun _ => [])) = ws at h
   split at h
   · simp at h
   · split at h
     · simp at h
     · rename_i s1 tn pnNews h1
+      have c1 := ctr_perEns _ _ h1
       split at h
       · simp at h
       · rename_i s2 h2
+        have c2 := ctr_recordFrac h2
         split at h
         · simp at h
         · rename_i s3 h3
+          have c3 : ctr s3 = ctr s2 := by
+            split at h3
+            · exact ctr_writeRows _ h3
+            · simp at h3; rw [h3]
           split at h
           · simp at h
           · rename_i s4 iters h4
+            have c4 := ctr_sortTrajstate _ h4
             simp at h
-            rw [← h.1]
-            have c3 : ctr s3 = ctr s2 := by
-              split at h3
-              · exact ctr_writeRows _ h3
-              · simp at h3; rw [h3]
-            show ctr s4 = ctr s
-            rw [ctr_sortTrajstate _ h4, c3, ctr_recordFrac h2, ctr_perEns _ _ h1]
+            rw [← h.1, ← c1, ← c2, ← c3, ← c4]; rfl
 
 end Infretis.Repex
